@@ -260,6 +260,7 @@ pub struct PeerMon {
     pub disc_at: HashMap<usize, Frame>, // player handle -> last_frame when first seen disconnected
     pub spec_frames: Vec<game::FrameInputs>,
     pub host_conf_seen: Frame,
+    pub last_status: Vec<(bool, Frame)>,
 }
 
 impl PeerMon {
@@ -285,6 +286,7 @@ impl PeerMon {
             disc_at: HashMap::new(),
             spec_frames: Vec::new(),
             host_conf_seen: -1,
+            last_status: Vec::new(),
         }
     }
 }
@@ -310,7 +312,8 @@ pub struct Out {
 }
 impl Out {
     fn hit(&mut self, prop: &str, class: &str, scen: &str, what: &str) {
-        if self.lines.iter().filter(|l| l.starts_with("HIT")).count() < 40 {
+        let prefix = format!("HIT {prop} {class} ");
+        if self.lines.iter().filter(|l| l.starts_with(&prefix)).count() < 2 {
             self.lines.push(format!("HIT {prop} {class} {scen} {what}"));
         }
     }
@@ -488,7 +491,11 @@ where
                 let n: i32 = o[2].parse().unwrap();
                 let p = peers.iter().find(|p| p.id == id).unwrap();
                 let adv = cur_frame(p) - p.mon.marked;
-                if !matches!(p.sess, Sess::Dead) && adv < n {
+                let too_far = p.mon.err_counts.get("SpectatorTooFarBehind").copied().unwrap_or(0) > 0;
+                if !matches!(p.sess, Sess::Dead) && adv < n && too_far {
+                    out.hit("C05", "spectator-too-far-behind", &scen, &format!(
+                        "spectator {id} fell more than the 60-frame spectator buffer behind during the fault and reports SpectatorTooFarBehind from then on (advanced {adv} frames, current frame {})", cur_frame(p)));
+                } else if !matches!(p.sess, Sess::Dead) && adv < n {
                     out.hit("C05", "no-progress", &scen, &format!(
                         "peer {id} advanced only {adv} frames (expected >= {n}) after the network behaved again; current frame {}", cur_frame(p)));
                 }
@@ -687,6 +694,7 @@ where
         Sess::P2P(s) => {
             let before = s.current_frame();
             let status_before = s.verif_connect_status();
+            p.mon.last_status = status_before.clone();
             let locals = {
                 let mut l = s.local_player_handles();
                 l.sort_unstable();
@@ -876,7 +884,9 @@ where
                 if e.pending_output > 128 + 2 * w + 20 {
                     out.hit("C18", "pending-output", &scen, &format!("peer {id} endpoint {a}: {} unacknowledged inputs buffered", e.pending_output));
                 }
-                if e.recv_inputs > 2 * w + 3 {
+                // kept: the last 2*window frames, or back to the input the sender still encodes against
+                // (its un-acknowledged window, itself bounded like pending_output)
+                if e.recv_inputs > 128 + 2 * w + 24 {
                     out.hit("C18", "recv-inputs", &scen, &format!("peer {id} endpoint {a}: {} received inputs remembered (max_prediction {w})", e.recv_inputs));
                 }
                 if e.pending_checksums > 33 {
@@ -913,6 +923,9 @@ where
                             // timing (C07)
                             let lrx = p.mon.last_rx.get(&a).copied();
                             if name.starts_with("NetworkInterrupted") {
+                                if sc.cfg.expect.iter().any(|x| x == "nointerrupt") {
+                                    out.hit("C12", "spurious-interrupt", &scen, &format!("peer {id}: NetworkInterrupted for {a} at t={} between two connected sessions that merely poll", now - 1_000_000));
+                                }
                                 if let Some(l) = lrx {
                                     if now <= l + cfg.notify {
                                         out.hit("C07", "interrupted-early", &scen, &format!("peer {id}: NetworkInterrupted for {a} at t={} but the last packet was handled at t={} (notify delay {})", now - 1_000_000, l - 1_000_000, cfg.notify));
@@ -1049,7 +1062,7 @@ where
             if sz.event_queue > 100 {
                 out.hit("C12", "event-queue-overflow", &scen, &format!("spectator {id}: {} events buffered", sz.event_queue));
             }
-            if sz.host.recv_inputs > 2 * cfg.window + 3 {
+            if sz.host.recv_inputs > 128 + 2 * cfg.window + 24 {
                 out.hit("C18", "recv-inputs", &scen, &format!("spectator {id}: {} received inputs remembered", sz.host.recv_inputs));
             }
             let evs: Vec<GgrsEvent<C>> = s.events().collect();
@@ -1103,6 +1116,18 @@ where
             dropped_players.push(h);
         }
     }
+    // how differently the survivors saw the dropped players when they noticed the disconnect (C10 class)
+    {
+        let mut gap = 0;
+        for h in &dropped_players {
+            let seen: Vec<Frame> = peers.iter().filter(|q| !q.delay_ref.contains_key(h) && matches!(q.spec, PeerSpec::P2P { .. }))
+                .filter_map(|q| q.mon.disc_at.get(h).copied().or_else(|| q.mon.last_status.get(*h).map(|x| x.1))).collect();
+            if let (Some(mx), Some(mn)) = (seen.iter().max(), seen.iter().min()) {
+                gap = gap.max(mx - mn);
+            }
+        }
+        out.lines.push(format!("STAT {scen} gap={gap}"));
+    }
     // ---- per peer: final timeline vs truth (C01 / C11 / C07) ----
     for p in peers.iter() {
         let Sess::P2P(s) = &p.sess else { continue };
@@ -1114,7 +1139,7 @@ where
                 if fi.len() != cfg.players {
                     continue;
                 }
-                let dropped = dropped_players.contains(&h);
+                let dropped = dropped_players.contains(&h) || status[h].0;
                 if !dropped {
                     if f as i32 <= conf {
                         match tval(h, f) {
@@ -1125,6 +1150,7 @@ where
                                     "peer {}: final simulation of confirmed frame {f} used ({v}, status {st}) for player {h}, the owner's real input is {t} (confirmed_frame {conf})", p.id));
                                 return;
                             }
+                            None if peers.iter().any(|q| q.delay_ref.contains_key(&h) && (q.mon.panicked || matches!(q.sess, Sess::Dead))) => {}
                             None => {
                                 out.hit("C01", "confirmed-without-truth", scen, &format!("peer {}: frame {f} is confirmed but player {h}'s owner never produced an input for it", p.id));
                                 return;
@@ -1157,6 +1183,12 @@ where
         for j in i + 1..live.len() {
             let (a, b) = (live[i], live[j]);
             let (Sess::P2P(sa), Sess::P2P(sb)) = (&a.sess, &b.sess) else { continue };
+            // two sessions that dropped each other continue on their own: nothing to compare
+            let sta0 = sa.verif_connect_status();
+            let stb0 = sb.verif_connect_status();
+            if b.delay_ref.keys().any(|h| sta0[*h].0) || a.delay_ref.keys().any(|h| stb0[*h].0) {
+                continue;
+            }
             let ca = guarded(|| sa.confirmed_frame()).unwrap_or(-1);
             let cb = guarded(|| sb.confirmed_frame()).unwrap_or(-1);
             let upto = ca.min(cb).min(a.mon.game.hist.len() as i32 - 1).min(b.mon.game.hist.len() as i32 - 1);
